@@ -30,7 +30,7 @@ func init() { harness.Register(check{}) }
 func (check) ID() string    { return "C04" }
 func (check) Level() string { return "fault_enumeration" }
 func (check) Rule() string {
-	return "fault enumeration: capability subsets over the flags that change what start-up/shutdown emit (exhaustive 2^9 in quick together with sampled options; in thorough 6 scripts per subset plus 2560 random masks over all 17 flags) x options (DisableMouse, DisableKittyKeyboard, CSIuBitMask, ReportKeyboardEvents) x session scripts (frames with cursor shown in some style, pointer-shape and app-id changes, 0-3 Suspend/Resume cycles) x shutdown point (every step boundary) and trigger: Close, double Close, Close from another goroutine, a termination signal (SIGTERM/SIGINT delivered to the process) also during an input burst and with a slow application, and a panic injected into the input goroutine through a tag-guarded hook at a position of an input burst (the process dies by design: the parent judges the terminal state recorded in the journal). The reference terminal's full mode table before New must equal the table after shutdown. A case is (caps, options, script, shutdown point, trigger); distinct = hash of it"
+	return "fault enumeration: capability subsets over the flags that change what start-up/shutdown emit (exhaustive 2^9 in quick together with sampled options; in thorough 6 scripts per subset plus 2560 random masks over all 17 flags) x options (DisableMouse, DisableKittyKeyboard, CSIuBitMask, ReportKeyboardEvents) x session scripts (frames with cursor shown in some style, pointer-shape and app-id changes, 0-3 Suspend/Resume cycles) x shutdown point (every step boundary) and trigger: Close, double Close, Close from another goroutine, a termination signal (SIGTERM/SIGINT delivered to the process) also during an input burst and with a slow application, and a panic injected into the input goroutine through a tag-guarded hook at a position of an input burst (the process dies by design: the parent judges the terminal state recorded in the journal). Application-closed sessions with Options.EventQueueSize 1 and in-band resize advertised (quick 48, thorough 640): capability events meet a full queue during start-up. The reference terminal's full mode table before New must equal the table after shutdown. A case is (caps, options, script, shutdown point, trigger); distinct = hash of it"
 }
 func (check) Assumptions() []string {
 	return []string{
@@ -84,6 +84,23 @@ func (check) Plan(tier string, seed int64) []harness.Batch {
 		bs = append(bs, harness.Batch{Name: fmt.Sprintf("panic-%d", i), Seed: seed, Spec: s, TimeoutS: 120, CaseTimeoutS: 60})
 	}
 	return bs
+}
+
+// smallQueue: sessions with Options.EventQueueSize 1 that are closed by the
+// application. The replies to the first start-up queries pile up behind the
+// one-slot queue while New still writes the later ones, so every capability
+// event meets a full queue; what was switched on blindly (in-band resize) or
+// on the strength of a reply must still be switched off again (C04-q). Own
+// PRNG, so that the cases above stay what they were.
+func smallQueue(w *harness.W, seed int64, n int) {
+	r := gen.New(seed*229 + 17)
+	for i := 0; i < n; i++ {
+		c := genCase(r, uint32(r.Intn(1<<len(flagBits)))|1<<3|uint32(i%2)) // in-band resize, every other time behind the synchronized-output report
+		c.Trigger = []string{"close", "double-close", "close-other-goroutine", "close-while-suspended"}[i%4]
+		c.QueueSz = 1
+		w.Count("cases_event_queue_of_one", 1)
+		runCase(w, c)
+	}
 }
 
 func maskFromSubset(sub uint32) uint32 {
@@ -475,6 +492,7 @@ func (c check) Run(w *harness.W, b harness.Batch) {
 				cc.Caps = uint32(r.Intn(1 << 17))
 				runCase(w, cc)
 			}
+			smallQueue(w, b.Seed, 40)
 			w.Count("exhaustive_spaces", 1)
 			return
 		}
@@ -484,6 +502,7 @@ func (c check) Run(w *harness.W, b harness.Batch) {
 			}
 			runCase(w, genCase(r, uint32(sub)))
 		}
+		smallQueue(w, b.Seed, 3)
 		w.Count("exhaustive_spaces", 1)
 	case "panic":
 		var cc caseT
